@@ -8,14 +8,20 @@
   a collection, every rune index goes through these primitives.  Signed ranges (the sign split
   and the negation, including -MinInt64), the length bounds of slices, distinct slices, maps of
   values and strings, key distinctness and the Filter predicate are theorems too; the remaining
-  contracts (floats, UTF-8, regexp, permutation, Make) are covered by the correspondence check +
+  contracts (UTF-8, regexp, permutation, Make) are covered by the correspondence check +
   monitor (see DESIGN.md for what is theorem and what is validated).
+  Floats: floats.go is integer arithmetic on IEEE-754 bit patterns; `Float32Range`/`Float64Range`
+  are modelled on bit patterns (RapidModel/Float.lean) and the theorems below give, for every bit
+  source and all non-NaN bounds `min ≤ max`: the value lies in `[min, max]` in the order of the
+  real numbers, is never a NaN, is infinite only if a bound is infinite, and no assertion of
+  `genUfloatRange`/`genUintRange`/`genIntRange` fires.
   Not provable here: termination of rejection loops on the PRNG (probabilistic); the dynamic
   Go type produced by `Make` (reflection).
 -/
 import RapidModel.Generated.Consts
 import RapidProofs.Contracts
 import RapidProofs.ContractsGen
+import RapidProofs.ContractsFloat
 import RapidModel.Minimize
 
 namespace Rapid.C03
@@ -79,6 +85,55 @@ theorem filter_predicate_holds (e : Env) (lab : Bool) (g : Gen) (p : Val → Boo
 
 /-- the premises are satisfiable: `[MinInt64, MinInt64+1]`, and lengths `2 ≤ 5` -/
 example : (Int64.minValue ≤ Int64.minValue + 1) ∧ normMin 2 ≤ normMax 5 := by decide
+
+/-! ### floats -/
+
+/-- `Float64Range(min, max)`, every bit source: the value is in `[min, max]`, not a NaN — or the
+    draw ends with invalid data (never with an assertion, never with an out-of-range value) -/
+theorem float64_in_range (ft : FT) (min max : UInt64) (fuel : Nat) (hok : floatRangeOK fmt64 min max = true) :
+    Yields (floatValue ft fmt64 min max fuel) (FloatOK fmt64 min max) :=
+  yields_floatValue ft fmt64 wf64 min max fuel hok
+
+/-- `Float32Range(min, max)` likewise -/
+theorem float32_in_range (ft : FT) (min max : UInt64) (fuel : Nat) (hok : floatRangeOK fmt32 min max = true) :
+    Yields (floatValue ft fmt32 min max fuel) (FloatOK fmt32 min max) :=
+  yields_floatValue ft fmt32 wf32 min max fuel hok
+
+/-- any format that fits a word (the statement does not depend on 23/8 or 52/11) -/
+theorem float_in_range (ft : FT) (f : FFmt) (hf : f.WF) (min max : UInt64) (fuel : Nat)
+    (hok : floatRangeOK f min max = true) : Yields (floatValue ft f min max fuel) (FloatOK f min max) :=
+  yields_floatValue ft f hf min max fuel hok
+
+/-- a value in range is infinite only if the bound on that side is infinite -/
+theorem float_infinite_only_if_bound (f : FFmt) (hpos : 0 < f.inf.toNat) (min max b : UInt64)
+    (hok : floatRangeOK f min max = true) (h : FloatOK f min max b) (hinf : f.mag b = f.inf) :
+    (f.isNeg b = true → f.mag min = f.inf ∧ f.isNeg min = true) ∧
+    (f.isNeg b = false → f.mag max = f.inf ∧ f.isNeg max = false) := by
+  simp only [floatRangeOK, Bool.and_eq_true, Bool.not_eq_true', f.isNaN_iff, decide_eq_false_iff_not, Nat.not_lt,
+    gt_iff_lt] at hok
+  obtain ⟨⟨hn0, hn1⟩, _⟩ := hok
+  obtain ⟨h1, h2, _⟩ := h
+  rw [f.fle_eq] at h1 h2
+  have h1 := of_decide_eq_true h1; have h2 := of_decide_eq_true h2
+  rw [hinf] at h1 h2
+  constructor
+  · intro hb; rw [hb] at h1
+    cases hm : f.isNeg min <;> simp only [hm, K, Bool.false_eq_true, if_false, if_true] at h1
+    · omega
+    · exact ⟨UInt64.toNat_inj.mp (by omega), rfl⟩
+  · intro hb; rw [hb] at h2
+    cases hm : f.isNeg max <;> simp only [hm, K, Bool.false_eq_true, if_false, if_true] at h2
+    · exact ⟨UInt64.toNat_inj.mp (by omega), rfl⟩
+    · omega
+
+example : 0 < fmt32.inf.toNat ∧ 0 < fmt64.inf.toNat := by decide
+
+/-- the premises are satisfiable: `[-1.5, +Inf]` in float64 and `[-0, 1]` in float32 are admissible
+    ranges, and NaN bounds or reversed bounds are not -/
+example : floatRangeOK fmt64 0xBFF8000000000000 0x7FF0000000000000 = true ∧
+    floatRangeOK fmt32 0x80000000 0x3F800000 = true ∧
+    floatRangeOK fmt64 0x7FF8000000000001 0x7FF0000000000000 = false ∧
+    floatRangeOK fmt64 0x3FF0000000000000 0 = false := by decide
 
 /-! ### facts re-read from /repo's source on every run -/
 
